@@ -224,7 +224,8 @@ class Interp:
                 try: srccache[f] = open(self.src_root + '/' + f).read().split('\n')
                 except OSError: srccache[f] = None
             if srccache[f] is None: continue
-            text = ' '.join(srccache[f][l-1:l+3])[c-1:]
+            text = ' '.join(srccache[f][l-1:l+6])[c-1:]
+            if '{' in text and text.startswith('impl'): text = text[:text.index('{') + 1]
             mm = re.match(r'^impl(?:<[^>]*>)?\s+(?:(.+?)\s+for\s+)?(.+?)\s*(?:where|\{)', text)
             if mm:
                 trait_raw, self_raw = mm.group(1), mm.group(2)
@@ -558,7 +559,11 @@ class Interp:
             v = self.operand(frame, rv[1]); n = int(re.match(r'\s*(\d+)', rv[2]).group(1))
             return VTuple([self.copyval(v) for _ in range(n)])
         if k == 'adt_struct':
-            return VStruct(rv[1], [self.operand(frame, o) for _, o in rv[2]])
+            path = rv[1]; items = [self.operand(frame, o) for _, o in rv[2]]
+            m = re.match(r'^(.*)::(\w+)$', re.sub(r'::<.*>(?=::\w+$)', '', path))
+            if m and self.is_enum_type(m.group(1)) and m.group(2) in self.enum_table(m.group(1)):
+                return VEnum(m.group(1), m.group(2), items)
+            return VStruct(path, items)
         if k == 'adt_tuple' or k == 'adt_unit':
             path = rv[1]; items = [self.operand(frame, o) for o in rv[2]] if k == 'adt_tuple' else []
             m = re.match(r'^(.*)::(\w+)$', re.sub(r'::<.*>(?=::\w+$)', '', path))
